@@ -599,6 +599,104 @@ Proof. apply once_e. Qed.
 End Once.
 
 (* ---------------------------------------------------------------------------------------- *)
+(* (b') propagated normal form when NO default restriction is configured (default_restrictions=None,
+   compute_form_data(do_apply_restrictions=True, do_apply_default_restrictions=False)): every
+   Restricted node of the output sits directly on a terminal of a non-ignored class, on a Grad of
+   terminals or on the ReferenceValue of such a terminal; unrestricted terminals stay as they are. *)
+Fixpoint prop_ok (e : expr) {struct e} : bool :=
+  match e with
+  | Zero _ _ | IntV _ | RealV _ _ | CplxV _ _ _ _ | RatV _ _ | Identity _ | PermSym _ => true
+  | Term _ _ _ => true
+  | Restricted _ a => rtarget a
+  | Grad a _ => gtarget a
+  | Div _ _ | NablaGrad _ _ | NablaDiv _ _ | Curl _ => false
+  | RefValue a _ => match a with Term _ _ _ => true | _ => false end
+  | Sum a b | Product a b | Division a b | Power a b | MinV a b | MaxV a b | Atan2 a b
+  | Bessel _ a b | Outer a b | Inner a b | Dot a b | Cross a b => prop_ok a && prop_ok b
+  | Abs a | Conj a | Real a | Imag a | Indexed a _ | IndexSum a _ _ | ComponentTensor a _
+  | Math _ a | Vari a _ | RefGrad a _ | Transposed a | Perp a | Trace a | Determinant a
+  | Inverse a | Cofactor a | Deviatoric a | Skew a | Sym a => prop_ok a
+  | ListTensor es => (fix all (l : list expr) : bool := match l with [] => true | x :: t => prop_ok x && all t end) es
+  | Conditional c t f => prop_c c && prop_ok t && prop_ok f
+  end
+with prop_c (c : cond) {struct c} : bool :=
+  match c with
+  | Cmp _ a b => prop_ok a && prop_ok b
+  | AndC a b | OrC a b => prop_c a && prop_c b
+  | NotC a => prop_c a
+  end.
+
+Section Propagated.
+Hypothesis Hlit : lit_h = HIgnore.
+Hypothesis Hdr : dr = None.
+
+Ltac inv1 H := match type of H with rmap1 _ ?r = OK _ =>
+  let x := fresh "x" in let E := fresh "E" in
+  destruct r as [x|] eqn:E; cbn [rmap1] in H; [injection H as <- | discriminate] end.
+Ltac inv2 H := match type of H with rmap2 _ ?r1 ?r2 = OK _ =>
+  let x := fresh "x" in let y := fresh "y" in let E1 := fresh "E" in let E2 := fresh "E" in
+  destruct r1 as [x|] eqn:E1; [destruct r2 as [y|] eqn:E2|]; cbn [rmap2] in H;
+  [injection H as <- | discriminate | discriminate] end.
+Ltac inv3 H := match type of H with rmap3 _ ?r1 ?r2 ?r3 = OK _ =>
+  let x := fresh "x" in let y := fresh "y" in let z := fresh "z" in
+  let E1 := fresh "E" in let E2 := fresh "E" in let E3 := fresh "E" in
+  destruct r1 as [x|] eqn:E1; [destruct r2 as [y|] eqn:E2; [destruct r3 as [z|] eqn:E3|]|];
+  cbn [rmap3] in H; [injection H as <- | discriminate | discriminate | discriminate] end.
+
+Lemma rule_prop_term cur k id sh e' :
+  apply_rule (resolve k id) cur (Term k id sh) = OK e' ->
+  prop_ok e' = true /\ (e' = Term k id sh \/ exists p, e' = Restricted p (Term k id sh)).
+Proof.
+  intros H. unfold apply_rule in H. rewrite Hdr in H.
+  destruct (resolve k id) eqn:R; try discriminate;
+  try (destruct cur; injection H as <-; cbn [prop_ok rtarget]; rewrite ?R;
+       (split; [reflexivity | first [left; reflexivity | right; eexists; reflexivity]])).
+Qed.
+
+Fixpoint prop_e (e : expr) {struct e} : forall cur e' n,
+  propagate cur e = OK e' -> adm n e = true -> prop_ok e' = true
+with prop_cn (cn : cond) {struct cn} : forall cur cn',
+  propagate_c cur cn = OK cn' -> admc cn = true -> prop_c cn' = true.
+Proof.
+  - intros cur e' n H Ha; destruct e; cbn [propagate] in H; try discriminate;
+    try (rewrite Hlit in H; cbn [apply_rule] in H; injection H as <-; reflexivity);
+    try (inv2 H; cbn [adm] in Ha; repeat (apply andb_prop in Ha; destruct Ha as [Ha ?]);
+         cbn [prop_ok]; rewrite (prop_e e1 _ _ _ E), (prop_e e2 _ _ _ E0) by eassumption; reflexivity);
+    try (inv1 H; cbn [adm] in Ha; cbn [prop_ok]; apply (prop_e e _ _ _ E Ha)).
+    + apply (proj1 (rule_prop_term _ _ _ _ _ H)).
+    + (* ListTensor *) inv1 H. cbn [prop_ok]. cbn [adm] in Ha.
+      revert x E Ha. induction es as [|x0 t IHt]; intros x E Ha.
+      * cbn in E. injection E as <-. reflexivity.
+      * cbn in E. inv2 E. apply andb_prop in Ha. destruct Ha as [Ha1 Ha2].
+        rewrite (prop_e x0 _ _ _ E0 Ha1). apply (IHt _ eq_refl Ha2).
+    + (* Conditional *) inv3 H. cbn [adm] in Ha. repeat (apply andb_prop in Ha; destruct Ha as [Ha ?]).
+      cbn [prop_ok]. rewrite (prop_cn c _ _ E Ha), (prop_e e1 _ _ _ E0), (prop_e e2 _ _ _ E1) by eassumption.
+      reflexivity.
+    + (* Vari *) apply (prop_e e _ _ _ H Ha).
+    + (* Restricted *) destruct cur; [discriminate|]. apply (prop_e e _ _ _ H Ha).
+    + (* Grad *) unfold apply_rule in H. rewrite Hdr in H. cbn [adm] in Ha.
+      destruct cur; injection H as <-; cbn [prop_ok rtarget]; exact Ha.
+    + (* RefValue *) destruct e; try discriminate. destruct (form_arg_kind k); [|discriminate].
+      destruct (apply_rule (resolve k id) cur (Term k id sh0)) as [g|] eqn:R; [|discriminate].
+      destruct (rule_prop_term _ _ _ _ _ R) as [O [->|[p ->]]].
+      * injection H as <-. reflexivity.
+      * injection H as <-. cbn [prop_ok rtarget] in *. exact O.
+  - destruct cn; intros cur cn' H Ha; cbn [propagate_c] in H; cbn [admc] in Ha.
+    + inv2 H. apply andb_prop in Ha. destruct Ha. cbn [prop_c].
+      rewrite (prop_e a _ _ _ E), (prop_e b _ _ _ E0) by eassumption. reflexivity.
+    + inv2 H. apply andb_prop in Ha. destruct Ha. cbn [prop_c].
+      rewrite (prop_cn cn1 _ _ E), (prop_cn cn2 _ _ E0) by eassumption. reflexivity.
+    + inv2 H. apply andb_prop in Ha. destruct Ha. cbn [prop_c].
+      rewrite (prop_cn cn1 _ _ E), (prop_cn cn2 _ _ E0) by eassumption. reflexivity.
+    + inv1 H. cbn [prop_c]. apply (prop_cn cn _ _ E Ha).
+Qed.
+
+Theorem C17_propagated e e' n : propagate None e = OK e' -> adm n e = true -> prop_ok e' = true.
+Proof. apply prop_e. Qed.
+
+End Propagated.
+
+(* ---------------------------------------------------------------------------------------- *)
 (* (c) rejects *)
 
 (* [bad chk inside e]: e contains a Restricted node inside a restriction, or (chk) an
@@ -709,6 +807,7 @@ Qed.
 Print Assumptions C17_value.
 Print Assumptions C17_value_inside.
 Print Assumptions C17_once.
+Print Assumptions C17_propagated.
 Print Assumptions C17_rejects.
 Print Assumptions C17_rejects_double.
 Print Assumptions C17_rejects_missing.
